@@ -62,6 +62,7 @@ def run(ctx: Context) -> None:
     ctx.rule("C07b", "documented gate identities hold for all parameter values")
     ctx.rule("C07c", "the Gaussian displacement step adds r*exp(i*phi) to the ladder-operator mean of the addressed mode")
     ctx.rule("C07d", "every gate registered with a linear step defines the block methods the step calls")
+    ctx.rule("C07e", "the Gaussian update of m, C, G on the addressed modes (and of the cross blocks with the other modes) equals the update derived from a' = P a + A a^dagger and the table of second moments")
     passive_base = idx.find_class(GATES, "_PassiveLinearGate")
     active_base = idx.find_class(GATES, "_ActiveLinearGate")
     blocks: Dict[str, Dict[str, Any]] = {}
@@ -226,6 +227,8 @@ def run(ctx: Context) -> None:
                       "the Gaussian displacement step does not add r*exp(i*phi) to the ladder-operator mean of the addressed modes",
                       "state._m[indices] + r * np.exp(1j * phi)")
 
+    clause_e(ctx, idx)
+
     # ---------------- (d) exhaustiveness ------------------------------------------------------------------------------------
     n_reg = 0
     for s in reg.simulators:
@@ -246,3 +249,155 @@ def run(ctx: Context) -> None:
                                   f"{e.instr.name} is registered with {e.step.name} in {s.cls.name}, which calls instruction.{meth}(), but "
                                   f"{e.instr.name} does not define it", f"{e.instr.name}: {e.step.name}")
     ctx.require_floor("(simulator, gate, block method) registrations", n_reg, 40)
+
+
+# ================================================================================================ (e)
+
+
+def clause_e(ctx: Context, idx) -> None:
+    """Moment update rules of the Gaussian simulator vs the update derived from the ladder-operator transformation."""
+    from .. import moments as mo
+
+    gs = idx.module("piquasso._simulators.gaussian.simulation_steps")
+
+    def fn(name):
+        f = gs.functions.get(name)
+        if f is None:
+            raise AnalysisError(f"anchor vanished: gaussian.simulation_steps:{name}")
+        return f
+
+    def assigned_values(f, attr):
+        """expressions stored into state.<attr> through connector.assign(state.<attr>, index, value) in source order"""
+        out = []
+        for n in ast.walk(f.node):
+            if isinstance(n, ast.Assign) and isinstance(n.targets[0], ast.Attribute) and n.targets[0].attr == attr \
+                    and isinstance(n.value, ast.Call) and isinstance(n.value.func, ast.Attribute) and n.value.func.attr == "assign" \
+                    and len(n.value.args) == 3:
+                out.append((n.value.args[1], n.value.args[2], n.lineno))
+        return sorted(out, key=lambda x: x[2])
+
+    def locals_of(f):
+        loc = {}
+        for n in ast.walk(f.node):
+            if isinstance(n, ast.Assign) and len(n.targets) == 1 and isinstance(n.targets[0], ast.Name):
+                loc[n.targets[0].id] = n.value
+        return loc
+
+    def check(key, f, expr_ast, evaluator, want, what):
+        try:
+            got = evaluator.ev(expr_ast)
+        except mo.Untranslatable as e:
+            ctx.obligation("C07e", key, False, undecided=str(e))
+            ctx.error(f"C07e: {e} (undecided)")
+            return
+        ok = mo.add(got, want, -1) == {}
+        ctx.obligation("C07e", key, ok, f"{ctx.relpath(f.file)}:{expr_ast.lineno}", code=mo.fmt(got), derived=mo.fmt(want))
+        if not ok:
+            ctx.violation("C07e", key, f.file, expr_ast.lineno,
+                          f"{f.name}: the new {what} is computed as {mo.fmt(got)}, but a' = P a + A a^dagger gives {mo.fmt(want)}: the "
+                          f"Gaussian simulator's effect is not the congruence by the gate's symplectic matrix", norm(expr_ast)[:120])
+
+    P, A, C, G, m = mo.sym("P"), mo.sym("A"), mo.sym("C"), mo.sym("G"), mo.sym("m")
+    # ---- active gates: diagonal blocks -------------------------------------------------------------------------
+    f = fn("_apply_linear_to_C_and_G")
+    params = f.params()  # state, P, A, modes
+    loc = locals_of(f)
+    env = {params[1]: P, params[2]: A}
+    for name, src in loc.items():
+        t = norm(src)
+        if t.endswith("._C[index]"):
+            env[name] = C
+        elif t.endswith("._G[index]"):
+            env[name] = G
+    ev = mo.WordEval(env)
+    G2, C2 = mo.oracle_second_moments(P, A, C, G)
+    gv, cv = assigned_values(f, "_G"), assigned_values(f, "_C")
+    if not gv or not cv:
+        raise AnalysisError("C07e: anchor vanished: assign(...) updates in _apply_linear_to_C_and_G")
+    check(f"{f.qualname}|G'", f, gv[0][1], ev, G2, "G block")
+    check(f"{f.qualname}|C'", f, cv[0][1], ev, C2, "C block")
+    # ---- passive gates ---------------------------------------------------------------------------------------------
+    f = fn("_apply_passive_linear_to_C_and_G")
+    params = f.params()
+    Tm = mo.sym("P")
+    env = {params[1]: Tm}
+    text_env = {}
+    for n in ast.walk(f.node):
+        if isinstance(n, ast.Subscript) and norm(n).endswith("._C[index]"):
+            text_env[norm(n)] = C
+        if isinstance(n, ast.Subscript) and norm(n).endswith("._G[index]"):
+            text_env[norm(n)] = G
+    ev = mo.WordEval(env, text_env)
+    G2p, C2p = mo.oracle_second_moments(Tm, mo.ZERO, C, G)
+    gv, cv = assigned_values(f, "_G"), assigned_values(f, "_C")
+    if not gv or not cv:
+        raise AnalysisError("C07e: anchor vanished: assign(...) updates in _apply_passive_linear_to_C_and_G")
+    check(f"{f.qualname}|G'", f, gv[0][1], ev, G2p, "G block")
+    check(f"{f.qualname}|C'", f, cv[0][1], ev, C2p, "C block")
+    # ---- means ----------------------------------------------------------------------------------------------------------
+    f = fn("_apply_linear")
+    params = f.params()
+    loc = locals_of(f)
+    text_env = {}
+    for n in ast.walk(f.node):
+        if isinstance(n, ast.Subscript) and "._m[" in norm(n):
+            text_env[norm(n)] = m
+    env = {params[1]: P, params[2]: A}
+    ev = mo.WordEval(env, text_env)
+    for name, src in loc.items():
+        try:
+            env[name] = ev.ev(src)
+        except mo.Untranslatable:
+            pass
+    mv = assigned_values(f, "_m")
+    if not mv:
+        raise AnalysisError("C07e: anchor vanished: the mean update in _apply_linear")
+    check(f"{f.qualname}|m'", f, mv[0][1], ev, mo.add(mo.mul(P, m), mo.mul(A, mo.conj(m))), "mean")
+    f = fn("_apply_passive_linear")
+    params = f.params()
+    text_env = {}
+    for n in ast.walk(f.node):
+        if isinstance(n, ast.Subscript) and "._m[" in norm(n):
+            text_env[norm(n)] = m
+    ev = mo.WordEval({params[1]: P}, text_env)
+    mv = assigned_values(f, "_m")
+    if not mv:
+        raise AnalysisError("C07e: anchor vanished: the mean update in _apply_passive_linear")
+    check(f"{f.qualname}|m'", f, mv[0][1], ev, mo.mul(P, m), "mean")
+    # ---- cross blocks with the auxiliary modes --------------------------------------------------------------------------------
+    Cx, Gx = mo.sym("Cx"), mo.sym("Gx")  # C[modes, aux], G[modes, aux]: no symmetry
+    for fname, has_active in (("_apply_linear_to_auxiliary_modes", True), ("_apply_passive_linear_to_auxiliary_modes", False)):
+        f = fn(fname)
+        params = f.params()
+        env = {params[1]: P}
+        if has_active:
+            env[params[2]] = A
+        text_env = {}
+        loc = locals_of(f)
+        for name, src in loc.items():
+            t = norm(src)
+            if t.endswith("._C[auxiliary_index]"):
+                env[name] = Cx
+            if t.endswith("._G[auxiliary_index]"):
+                env[name] = Gx
+        for n in ast.walk(f.node):
+            if isinstance(n, ast.Subscript) and norm(n).endswith("._C[auxiliary_index]"):
+                text_env[norm(n)] = Cx
+            if isinstance(n, ast.Subscript) and norm(n).endswith("._G[auxiliary_index]"):
+                text_env[norm(n)] = Gx
+            # the symmetric fill: C[:, modes] = conj(C[modes, :])^T ; G[:, modes] = G[modes, :]^T
+            if isinstance(n, ast.Subscript) and norm(n).endswith("._C[modes, :]"):
+                text_env[norm(n)] = mo.sym("Crow")
+            if isinstance(n, ast.Subscript) and norm(n).endswith("._G[modes, :]"):
+                text_env[norm(n)] = mo.sym("Grow")
+        ev = mo.WordEval(env, text_env)
+        Az = A if has_active else mo.ZERO
+        want_C = mo.add(mo.mul(mo.conj(P), Cx), mo.mul(mo.conj(Az), Gx))
+        want_G = mo.add(mo.mul(P, Gx), mo.mul(Az, Cx))
+        gv, cv = assigned_values(f, "_G"), assigned_values(f, "_C")
+        if len(gv) < 2 or len(cv) < 2:
+            raise AnalysisError(f"C07e: anchor vanished: cross-block updates in {fname}")
+        check(f"{f.qualname}|C'[modes,aux]", f, cv[0][1], ev, want_C, "C cross block")
+        check(f"{f.qualname}|G'[modes,aux]", f, gv[0][1], ev, want_G, "G cross block")
+        check(f"{f.qualname}|C[:,modes] hermitian fill", f, cv[1][1], ev, mo.transpose(mo.conj(mo.sym("Crow"))), "C column block")
+        check(f"{f.qualname}|G[:,modes] symmetric fill", f, gv[1][1], ev, mo.transpose(mo.sym("Grow")), "G column block")
